@@ -108,6 +108,11 @@ def matches_known(v, finding):
     bs, text, _, _ = gen(w['seed'], w.get('nblocks'))
     if finding.get('class') == 'adjacent-lists-looseness':
         return adjacent_lists(bs)
+    if finding.get('class') == 'escaped-backslash-before-span':
+        # the written document has an escaped backslash glued to an autolink / raw tag, a strikethrough or a code span,
+        # and that backslash is what is missing from the output
+        import re as _re
+        return _re.search(r'(?<!\\)(?:\\\\)+(?:<[A-Za-z/!?]|~~|`)', text) is not None and 'expected …' in v['what'] and '\\\\' in v['what']
     return False
 
 
